@@ -349,6 +349,9 @@ func (g *G) Commands() *brigodier.RootCommandNode {
 	root := &brigodier.RootCommandNode{}
 	cmd := brigodier.CommandFunc(func(*brigodier.CommandContext) error { return nil })
 	types := []brigodier.ArgumentType{brigodier.String, brigodier.Bool, brigodier.Int, brigodier.StringWord, brigodier.StringPhrase, brigodier.Float64, brigodier.Int64}
+	for i := 0; i < 6; i++ { // number arguments with bounds at and beyond the "unbounded" sentinels
+		types = append(types, g.NumberArg())
+	}
 	// 1. plain top-level commands (possible redirect targets), some with argument sub-trees
 	n := 1 + g.R.Intn(4)
 	var targets []brigodier.CommandNode
@@ -394,6 +397,40 @@ func (g *G) Commands() *brigodier.RootCommandNode {
 		root.AddChild(e.node)
 	}
 	return root
+}
+
+// F64Bounds / F32Bounds / I64Bounds / I32Bounds: boundary values of brigadier number-argument bounds (floats as bits).
+var F64Bounds = []uint64{
+	math.Float64bits(-math.MaxFloat64), math.Float64bits(math.MaxFloat64), // the sentinels
+	math.Float64bits(math.Inf(-1)), math.Float64bits(math.Inf(1)), 0x7ff8000000000001, 0xfff8000000000000, // ±Inf, NaNs
+	0x8000000000000000, 0, 1, 0x8000000000000001, 0x000fffffffffffff, // -0, +0, subnormals
+	math.Float64bits(-math.MaxFloat32), math.Float64bits(math.MaxFloat32), math.Float64bits(1), math.Float64bits(-1.5),
+	math.Float64bits(math.Nextafter(math.MaxFloat64, 0)), math.Float64bits(math.Nextafter(-math.MaxFloat64, 0)),
+}
+var F32Bounds = []uint32{
+	math.Float32bits(-math.MaxFloat32), math.Float32bits(math.MaxFloat32),
+	math.Float32bits(float32(math.Inf(-1))), math.Float32bits(float32(math.Inf(1))), 0x7fc00001, 0xffc00000,
+	0x80000000, 0, 1, 0x80000001, 0x007fffff, math.Float32bits(1), math.Float32bits(-2.5), 0x7f7ffffe, 0xff7ffffe,
+}
+var I64Bounds = []int64{
+	math.MinInt32, math.MaxInt64, // brigodier's sentinels (MinInt64 is really MinInt32)
+	math.MinInt64, math.MinInt64 + 1, math.MaxInt64 - 1, math.MinInt32 - 1, math.MinInt32 + 1, math.MaxInt32, math.MaxInt32 + 1,
+	-5000000000, 5000000000, 0, 1, -1, 255,
+}
+var I32Bounds = []int32{math.MinInt32, math.MaxInt32, math.MinInt32 + 1, math.MaxInt32 - 1, 0, 1, -1, 65536}
+
+// NumberArg returns a brigadier number argument type whose bounds are drawn from the boundary tables.
+func (g *G) NumberArg() brigodier.ArgumentType {
+	switch g.R.Intn(4) {
+	case 0:
+		return &brigodier.Float64ArgumentType{Min: math.Float64frombits(hx.Pick(g.R, F64Bounds)), Max: math.Float64frombits(hx.Pick(g.R, F64Bounds))}
+	case 1:
+		return &brigodier.Float32ArgumentType{Min: math.Float32frombits(hx.Pick(g.R, F32Bounds)), Max: math.Float32frombits(hx.Pick(g.R, F32Bounds))}
+	case 2:
+		return &brigodier.Int64ArgumentType{Min: hx.Pick(g.R, I64Bounds), Max: hx.Pick(g.R, I64Bounds)}
+	default:
+		return &brigodier.Int32ArgumentType{Min: hx.Pick(g.R, I32Bounds), Max: hx.Pick(g.R, I32Bounds)}
+	}
 }
 
 // ---------- generic filler ----------
